@@ -210,7 +210,8 @@ def run(ctx):
             pair = [r * 0.6, 0.5] if where == "inner" else [0.3, r if r != 0.5 else 0.5]
             r = {"list": list, "tuple": tuple, "array": np.array}[kind](pair)
             nidx = [1.5, 1.4]
-        cen = {0: 1.0, 2: (0.0, 1.0), 3: (0.0, 1.0, 2.0), 4: (0.0, 1.0, 2.0, 3.0), 13: [[0.0, 1.0, 2.0]]}[sh["clen"]]
+        cen = {0: 1.0, 2: (0.0, 1.0), 3: (0.0, 1.0, 2.0), 4: (0.0, 1.0, 2.0, 3.0), 13: [[0.0, 1.0, 2.0]],
+               31: [[0.0], [1.0], [2.0]]}[sh["clen"]]
         ctx.case(("ctor", sh))
         with warnings.catch_warnings():
             warnings.simplefilter("ignore")
